@@ -493,6 +493,7 @@ def normalize_model_rec(r):
     r.setdefault("faults", {})
     r.setdefault("expect_solved", False)
     r.setdefault("k_none", False)
+    r.setdefault("documented_incompat", False)
     r.setdefault("proutes", [])
     r.setdefault("pweights", [])
     # TLC cannot read JSON null / floats: make sure none slipped through
